@@ -107,7 +107,7 @@ def run_one(name, checks, tier, seeds):
         if a.returncode != 0:
             entry["errors"].append({"check": "-", "tail": "patch does not apply: " + a.stderr[-300:]})
             return entry
-        env = dict(os.environ, VERIF_REPO_ROOT=wt, VERIF_EVIDENCE_DIR=os.path.join(SCR, "ev_" + name), VERIF_OUT_DIR=os.path.join(SCR, "out_" + name), VERIF_MAX_ROUNDS="1", VERIF_MIN_BUDGET="40")
+        env = dict(os.environ, VERIF_REPO_ROOT=wt, VERIF_EVIDENCE_DIR=os.path.join(SCR, "ev_" + name), VERIF_OUT_DIR=os.path.join(SCR, "out_" + name), VERIF_MAX_ROUNDS="1", VERIF_MIN_BUDGET="10", VERIF_TIMEOUT_SCALE="0.25")
         for c in checks:
             hit = None
             for s in seeds:
